@@ -189,6 +189,7 @@ package bpmn
 
 //@ func (*parallelGateway).run
 //@   prop C03 C07 C01
+//@   flag spawnpre
 //@   requires gw.wiring != nil && pgInv(gw) && gw.noOfIncomingFlows >= 1
 //@   ensures [cancel-trace-then-sender-done] evlen >= old(evlen) + 3 &&
 //@             isRecv(ev(evlen - 3)) &&
@@ -248,8 +249,10 @@ package bpmn
 //@         evlen == old(evlen) + 1 && gw.reportedIncomingFlows == old(gw.reportedIncomingFlows) && gw.awaitingActions == old(gw.awaitingActions)
 
 //@ func (*parallelGateway).NextAction
-//@   prop C03
+//@   prop C03 C01 C07
 //@   requires gw.wiring != nil
+//@   assumes [the-node-is-as-built-until-its-loop-owns-it] !oncedone(mu(gw.once)) ==> pgInv(gw) && gw.noOfIncomingFlows == len(gw.wiring.incoming)
+//@   assumes [a-gateway-that-a-token-reaches-has-an-incoming-flow] gw.noOfIncomingFlows >= 1
 //@   ensures [fresh-reply-channel] fresh(result) && result != nil
 //@   ensures [one-request-sent-last] isSend(ev(evlen - 1)) && evch(ev(evlen - 1)) == gw.mch &&
 //@             is(evval(ev(evlen - 1)), nextActionMessage) &&
@@ -326,6 +329,17 @@ package bpmn
 //@               has(tracker.flows, k) == old(has(tracker.flows, k)) && tracker.flows[k] == old(tracker.flows[k])
 //@     invariant forall k id.Id :: old(has(tracker.flows, k)) ==> has(tracker.flows, k)
 
+// The tracker of an inclusive gateway: a tracker of its own for the gateway's own tracer and element, with fresh
+// channels (a one-slot activity channel: a pending wake-up is kept, never two), created holding its lock - the lock is
+// handed to its one goroutine, which releases it once it has caught up with the trace stream - and subscribed exactly once.
+//@ func newFlowTracker
+//@   prop C05 C07
+//@   flag lockeffect
+//@   ensures [a-tracker-of-its-own] result != nil && fresh(result) && result.tracer == tracer && result.element == element
+//@   ensures [fresh-channels-and-a-one-slot-wake-up] result.activityCh != nil && fresh(result.activityCh) && chancap(result.activityCh) == 1 &&
+//@             result.shutdownCh != nil && fresh(result.shutdownCh) && chancap(result.shutdownCh) == 0 && result.traces != nil
+//@   ensures [subscribes-once-and-starts-one-goroutine] count(Call, code("tracing|ITracer.Subscribe")) == old(count(Call, code("tracing|ITracer.Subscribe"))) + 1 &&
+//@             count(Spawn, code("(*flowTracker).run")) == old(count(Spawn, code("(*flowTracker).run"))) + 1
 //@ func (*flowTracker).run
 //@   prop C05 C07 C17
 //@   flag entrylocks
@@ -566,6 +580,7 @@ package bpmn
 
 //@ func (*genericTask).run
 //@   prop C01 C08 C10 C07
+//@   flag spawnpre
 //@   requires task.wiring != nil
 //@   ensures [exit-by-cancel-or-context] isTrace(ev(evlen - 1)) && is(evval(ev(evlen - 1)), CancellationFlowNodeTrace) ||
 //@             (isSend(ev(evlen - 1)) && is(evval(ev(evlen - 1)), bool) && evval(ev(evlen - 1)).(bool) && task.active == 0)
@@ -634,7 +649,7 @@ package bpmn
 // handleSequenceFlow: the current token either moves along the flow (leave, visit, position and transformer
 // updated) or stays exactly where it was; it emits only traces.
 //@ func (*flow).handleSequenceFlow
-//@   prop C01 C09
+//@   prop C01 C03 C05 C09 C12
 //@   ensures [stays-put-when-not-flowed] !flowed ==> f.current == old(f.current) && f.sequenceFlowId == old(f.sequenceFlowId) &&
 //@             f.terminate == old(f.terminate) && f.actionTransformer == old(f.actionTransformer)
 //@   ensures [moved-when-flowed] flowed ==> f.terminate == terminate && f.actionTransformer == actionTransformer
@@ -654,7 +669,7 @@ package bpmn
 // handleAdditionalSequenceFlow: a fork that will flow draws exactly one identifier (flowId) and returns the
 // starter of the new token; one that will not flow draws none.  The current token is not moved.
 //@ func (*flow).handleAdditionalSequenceFlow
-//@   prop C01 C09 C20
+//@   prop C01 C03 C05 C09 C12 C20
 //@   ensures [starter-is-the-fork-literal] flowed ==> fncode(handle) == code("(*flow).handleAdditionalSequenceFlow$1")
 //@   ensures [flowing-fork-draws-one-id] flowed ==> handle != nil && tag(flowId) != 0 &&
 //@             isCall(ev(evlen - 1)) && evch(ev(evlen - 1)) == code("id|IGenerator.New") && evval(ev(evlen - 1)) == f.idGenerator &&
@@ -726,7 +741,7 @@ package bpmn
 //@   count(Trace, VisitTrace) == athead(1, count(Trace, VisitTrace))
 
 //@ func (*flow).Start$1
-//@   prop C01 C02 C04 C06 C07 C08 C09
+//@   prop C01 C02 C03 C04 C05 C06 C07 C08 C09 C12
 //@   requires f != nil && f.tracer != nil && f.flowWaitGroup != nil
 //@   recvinv flowAction: forall b int :: off(msg.unconditionalFlows) <= b && b < off(msg.unconditionalFlows) + len(msg.unconditionalFlows) ==>
 //@             0 <= at(msg.unconditionalFlows, b) && at(msg.unconditionalFlows, b) < len(msg.sequenceFlows)
@@ -823,14 +838,14 @@ package bpmn
 //@   prop C04 C01
 //@   requires wr != nil
 //@   ensures [the-probed-flows-are-the-outgoing-flows-the-default-filter-lets-through] err == nil ==> gw != nil && fresh(gw) && gw.wiring == wr &&
-//@             gw.element == element && gw.probing != nil &&
+//@             gw.element == element && gw.probing != nil && chancap(gw.mch) == 2*len(wr.incoming) + 1 &&
 //@             ncallsCode(code("newExclusiveGateway$1")) == old(ncallsCode(code("newExclusiveGateway$1"))) + len(wr.outgoing) &&
 //@             len(gw.nonDefaultSequenceFlows) == len(wr.outgoing) - (ncallsTrueCode(code("newExclusiveGateway$1")) - old(ncallsTrueCode(code("newExclusiveGateway$1"))))
 //@ func newInclusiveGateway
 //@   prop C05 C01
 //@   requires wr != nil
 //@   ensures [the-probed-flows-are-the-outgoing-flows-the-default-filter-lets-through] err == nil ==> gw != nil && fresh(gw) && gw.wiring == wr &&
-//@             gw.element == element &&
+//@             gw.element == element && gw.flowTracker != nil && chancap(gw.mch) == 2*len(wr.incoming) + 1 &&
 //@             ncallsCode(code("newInclusiveGateway$1")) == old(ncallsCode(code("newInclusiveGateway$1"))) + len(wr.outgoing) &&
 //@             len(gw.nonDefaultSequenceFlows) == len(wr.outgoing) - (ncallsTrueCode(code("newInclusiveGateway$1")) - old(ncallsTrueCode(code("newInclusiveGateway$1"))))
 
@@ -839,6 +854,7 @@ package bpmn
 
 //@ func (*exclusiveGateway).run
 //@   prop C04 C07 C01
+//@   flag spawnpre
 //@   ensures [sender-released-exactly-once-on-exit @C07] count(Call, code("tracing|ISenderHandle.Done")) == old(count(Call, code("tracing|ISenderHandle.Done"))) + 1
 //@   requires gw.wiring != nil && gw.probing != nil
 //@   recvinv gatewayProbingReport: forall a int :: off(msg.result) <= a && a < off(msg.result) + len(msg.result) ==>
@@ -914,8 +930,9 @@ package bpmn
 //@   flag emits none
 
 //@ func (*exclusiveGateway).NextAction
-//@   prop C04
+//@   prop C04 C01 C07
 //@   requires gw.wiring != nil
+//@   assumes [the-node-is-as-built-until-its-loop-owns-it] !oncedone(mu(gw.once)) ==> gw.probing != nil
 //@   ensures [fresh-buffered-reply-channel] fresh(result) && result != nil && chancap(result) == 1
 //@   ensures [one-request-sent-last] isSend(ev(evlen - 1)) && evch(ev(evlen - 1)) == gw.mch &&
 //@             is(evval(ev(evlen - 1)), nextActionMessage) &&
@@ -997,6 +1014,7 @@ package bpmn
 //@   ensures result == tracker.activityCh
 
 //@ func (*inclusiveGateway).run
+//@   flag spawnpre
 //@   prop C05 C07 C01
 //@   ensures [sender-released-exactly-once-on-exit @C07] count(Call, code("tracing|ISenderHandle.Done")) == old(count(Call, code("tracing|ISenderHandle.Done"))) + 1
 //@   requires gw.wiring != nil && gw.flowTracker != nil
@@ -1281,8 +1299,13 @@ package bpmn
 // harness registers itself with the scope's egress and every boundary listener with *itself* - that is what puts the
 // harness's `active` gate in front of them (a listener registered with the scope directly would react after the
 // activity has completed).
+//@ spec func catchAsBuilt(evt *catchEvent) bool =
+//@   evt.wiring != nil && evt.satisfier != nil && cesShape(evt.satisfier) && len(evt.satisfier.chains) == 0 &&
+//@   !evt.activated && len(evt.awaitingActions) == 0 && evt.mch != nil && chancap(evt.mch) == 2*len(evt.wiring.incoming) + 1
 //@ func newCatchEvent
-//@   prop C10 C11
+//@   prop C10 C11 C14
+//@   requires wr != nil
+//@   ensures [built-idle-with-an-empty-satisfier-and-an-inbox-of-two-slots-per-incoming-flow-plus-one] evt != nil && fresh(evt) && evt.wiring == wr && evt.element == element && catchAsBuilt(evt)
 //@   ensures [the-listener-registers-once-with-the-egress-its-wiring-has] count(Call, code("event|ISource.RegisterEventConsumer")) == old(count(Call, code("event|ISource.RegisterEventConsumer"))) + 1 &&
 //@             lastval(Call, code("event|ISource.RegisterEventConsumer")) == old(wr.eventEgress)
 //@ func newHarness
@@ -1362,6 +1385,7 @@ package bpmn
 // arriving while the node is not activated is dropped without any effect.
 //@ func (*catchEvent).run
 //@   prop C11 C14 C07
+//@   flag spawnpre
 //@   ensures [sender-released-exactly-once-on-exit @C07] count(Call, code("tracing|ISenderHandle.Done")) == old(count(Call, code("tracing|ISenderHandle.Done"))) + 1
 //@   requires evt.wiring != nil && evt.satisfier != nil
 //@   requires cesShape(evt.satisfier) && cesDistinct(evt.satisfier) && cesNoneFull(evt.satisfier) && cesCommonBit(evt.satisfier)
@@ -1409,6 +1433,7 @@ package bpmn
 // One activation: a fresh set of termination channels, one action carrying every outgoing flow, the terminate lookup
 // and the shared transformer below.
 //@ func (*eventBasedGateway).run
+//@   flag spawnpre
 //@   prop C06 C07
 //@   ensures [sender-released-exactly-once-on-exit @C07] count(Call, code("tracing|ISenderHandle.Done")) == old(count(Call, code("tracing|ISenderHandle.Done"))) + 1
 //@   requires gw.wiring != nil
@@ -1487,7 +1512,8 @@ package bpmn
 //@   count(Spawn, code("(*Process).ceaseFlowMonitor$1")) == old(count(Spawn, code("(*Process).ceaseFlowMonitor$1")))
 
 //@ func (*startEvent).Trigger
-//@   prop C02 C07
+//@   prop C02 C07 C14
+//@   assumes [the-node-is-as-built-until-its-loop-owns-it] !oncedone(mu(evt.once)) ==> startAsBuilt(evt)
 //@   ensures [queues-one-start-message-last] isSend(ev(evlen - 1)) && evch(ev(evlen - 1)) == evt.mch && is(evval(ev(evlen - 1)), startMessage)
 //@   ensures [its-goroutine-is-started-at-most-once] count(Spawn, code("(*startEvent).run")) <= old(count(Spawn, code("(*startEvent).run"))) + 1
 //@   ensures [a-sender-is-registered-only-together-with-the-goroutine-that-releases-it] old(oncedone(mu(evt.once))) ==>
@@ -1497,7 +1523,8 @@ package bpmn
 //@             count(Call, code("tracing|ITracer.RegisterSender")) == old(count(Call, code("tracing|ITracer.RegisterSender"))) + 1
 //@   ensures startFrame() && noMonitorStarted()
 //@ func (*throwEvent).Trigger
-//@   prop C02 C07
+//@   prop C02 C07 C14
+//@   assumes [the-node-is-as-built-until-its-loop-owns-it] !oncedone(mu(evt.once)) ==> throwAsBuilt(evt)
 //@   ensures [queues-one-start-message-last] isSend(ev(evlen - 1)) && evch(ev(evlen - 1)) == evt.mch && is(evval(ev(evlen - 1)), startMessage)
 //@   ensures [a-sender-is-registered-only-together-with-the-goroutine-that-releases-it] old(oncedone(mu(evt.once))) ==>
 //@             count(Call, code("tracing|ITracer.RegisterSender")) == old(count(Call, code("tracing|ITracer.RegisterSender")))
@@ -1641,6 +1668,7 @@ package bpmn
 //@   ensures [releases-no-sender] count(Call, code("tracing|ISenderHandle.Done")) == old(count(Call, code("tracing|ISenderHandle.Done")))
 //@ func (*startEvent).run
 //@   prop C07 C14 C11 C01
+//@   flag spawnpre
 //@   ensures [sender-released-exactly-once-on-exit @C07] count(Call, code("tracing|ISenderHandle.Done")) == old(count(Call, code("tracing|ISenderHandle.Done"))) + 1
 //@   requires evt.satisfier != nil && cesShape(evt.satisfier) && cesDistinct(evt.satisfier) && cesNoneFull(evt.satisfier) && cesCommonBit(evt.satisfier)
 //@   loop 1 for
@@ -1699,6 +1727,7 @@ package bpmn
 //@   ensures [releases-no-sender] count(Call, code("tracing|ISenderHandle.Done")) == old(count(Call, code("tracing|ISenderHandle.Done")))
 //@ func (*throwEvent).run
 //@   prop C07 C14 C11 C01
+//@   flag spawnpre
 //@   ensures [sender-released-exactly-once-on-exit @C07] count(Call, code("tracing|ISenderHandle.Done")) == old(count(Call, code("tracing|ISenderHandle.Done"))) + 1
 //@   requires evt.satisfier != nil && tesShape(evt.satisfier) && tesDistinct(evt.satisfier) && tesNoneFull(evt.satisfier) && tesCommonBit(evt.satisfier)
 //@   loop 1 for
@@ -1962,8 +1991,9 @@ package bpmn
 // carrying a reply channel of its own and the asking token, as its last action; the node's message loop is started by
 // the first request only, together with the one sender registration that loop releases when it ends.
 //@ func (*catchEvent).NextAction
-//@   prop C01 C11 C07
+//@   prop C01 C11 C07 C14
 //@   requires evt.wiring != nil
+//@   assumes [the-node-is-as-built-until-its-loop-owns-it] !oncedone(mu(evt.once)) ==> catchAsBuilt(evt)
 //@   ensures [fresh-reply-channel] fresh(result) && result != nil
 //@   ensures [one-request-sent-last] isSend(ev(evlen - 1)) && evch(ev(evlen - 1)) == evt.mch &&
 //@             is(evval(ev(evlen - 1)), nextActionMessage) &&
@@ -1978,8 +2008,9 @@ package bpmn
 //@             count(Call, code("tracing|ITracer.RegisterSender")) == old(count(Call, code("tracing|ITracer.RegisterSender"))) + 1 &&
 //@             count(Spawn, code("(*catchEvent).run")) == old(count(Spawn, code("(*catchEvent).run"))) + 1
 //@ func (*startEvent).NextAction
-//@   prop C01 C07
+//@   prop C01 C07 C14
 //@   requires evt.wiring != nil
+//@   assumes [the-node-is-as-built-until-its-loop-owns-it] !oncedone(mu(evt.once)) ==> startAsBuilt(evt)
 //@   ensures [fresh-reply-channel] fresh(result) && result != nil
 //@   ensures [one-request-sent-last] isSend(ev(evlen - 1)) && evch(ev(evlen - 1)) == evt.mch &&
 //@             is(evval(ev(evlen - 1)), nextActionMessage) &&
@@ -1994,8 +2025,9 @@ package bpmn
 //@             count(Call, code("tracing|ITracer.RegisterSender")) == old(count(Call, code("tracing|ITracer.RegisterSender"))) + 1 &&
 //@             count(Spawn, code("(*startEvent).run")) == old(count(Spawn, code("(*startEvent).run"))) + 1
 //@ func (*throwEvent).NextAction
-//@   prop C01 C07
+//@   prop C01 C07 C14
 //@   requires evt.wiring != nil
+//@   assumes [the-node-is-as-built-until-its-loop-owns-it] !oncedone(mu(evt.once)) ==> throwAsBuilt(evt)
 //@   ensures [fresh-reply-channel] fresh(result) && result != nil
 //@   ensures [one-request-sent-last] isSend(ev(evlen - 1)) && evch(ev(evlen - 1)) == evt.mch &&
 //@             is(evval(ev(evlen - 1)), nextActionMessage) &&
@@ -2043,6 +2075,8 @@ package bpmn
 //@ func (*inclusiveGateway).NextAction
 //@   prop C01 C05 C07
 //@   requires gw.wiring != nil
+//@   assumes [the-node-is-as-built-until-its-loop-owns-it] !oncedone(mu(gw.once)) ==> gw.flowTracker != nil
+//@   assumes [the-tracker's-activity-channel-is-not-the-context's] gw.flowTracker != nil ==> gw.flowTracker.activityCh != ctxdone(ctx)
 //@   ensures [fresh-reply-channel] fresh(result) && result != nil
 //@   ensures [one-request-sent-last] isSend(ev(evlen - 1)) && evch(ev(evlen - 1)) == gw.mch &&
 //@             is(evval(ev(evlen - 1)), nextActionMessage) &&
@@ -2103,3 +2137,36 @@ package bpmn
 //@     invariant ndirect(code("(*FlowNodeMapping).RegisterElementToFlowNode")) == old(ndirect(code("(*FlowNodeMapping).RegisterElementToFlowNode"))) + len(*subProcessElement.StartEvents()) + len(*subProcessElement.EndEvents()) + len(*subProcessElement.IntermediateCatchEvents()) + len(*subProcessElement.IntermediateThrowEvents()) + len(*subProcessElement.BusinessRuleTasks()) + len(*subProcessElement.CallActivities()) + len(*subProcessElement.Tasks()) + len(*subProcessElement.ManualTasks()) + len(*subProcessElement.ServiceTasks()) + len(*subProcessElement.UserTasks()) + len(*subProcessElement.ReceiveTasks()) + len(*subProcessElement.ScriptTasks()) + len(*subProcessElement.SendTasks()) + len(*subProcessElement.SubProcesses()) + len(*subProcessElement.ExclusiveGateways()) + len(*subProcessElement.InclusiveGateways()) + rk17
 //@   loop 18 range *subProcessElement.EventBasedGateways()
 //@     invariant ndirect(code("(*FlowNodeMapping).RegisterElementToFlowNode")) == old(ndirect(code("(*FlowNodeMapping).RegisterElementToFlowNode"))) + len(*subProcessElement.StartEvents()) + len(*subProcessElement.EndEvents()) + len(*subProcessElement.IntermediateCatchEvents()) + len(*subProcessElement.IntermediateThrowEvents()) + len(*subProcessElement.BusinessRuleTasks()) + len(*subProcessElement.CallActivities()) + len(*subProcessElement.Tasks()) + len(*subProcessElement.ManualTasks()) + len(*subProcessElement.ServiceTasks()) + len(*subProcessElement.UserTasks()) + len(*subProcessElement.ReceiveTasks()) + len(*subProcessElement.ScriptTasks()) + len(*subProcessElement.SendTasks()) + len(*subProcessElement.SubProcesses()) + len(*subProcessElement.ExclusiveGateways()) + len(*subProcessElement.InclusiveGateways()) + len(*subProcessElement.ParallelGateways()) + rk18
+
+// ---------------------------------------------------------------------------
+// What the constructors hand to the message loops.  A node's loop is started by the first request (or trigger) through
+// the node's sync.Once; until then the node is as its constructor built it (no other code writes its state: actor
+// confinement, assumed - it is the named precondition of NextAction / Trigger below, which the interface call sites
+// cannot check).  The loop's own precondition is then proved where its goroutine is started.
+//@ spec func startAsBuilt(evt *startEvent) bool =
+//@   evt.wiring != nil && evt.satisfier != nil && cesShape(evt.satisfier) && len(evt.satisfier.chains) == 0 &&
+//@   !evt.activated && evt.mch != nil && chancap(evt.mch) == 2*len(evt.wiring.incoming) + 1
+//@ spec func throwAsBuilt(evt *throwEvent) bool =
+//@   evt.wiring != nil && evt.satisfier != nil && tesShape(evt.satisfier) && len(evt.satisfier.chains) == 0 &&
+//@   !evt.activated && len(evt.awaitingActions) == 0 && evt.mch != nil && chancap(evt.mch) == 2*len(evt.wiring.incoming) + 1
+//@ func newStartEvent
+//@   prop C01 C11 C14
+//@   requires wr != nil
+//@   ensures [built-idle-with-an-empty-satisfier-and-an-inbox-of-two-slots-per-incoming-flow-plus-one] err == nil ==> evt != nil && fresh(evt) && evt.wiring == wr && evt.element == element && startAsBuilt(evt)
+//@   ensures [the-listener-registers-once-with-the-egress-its-wiring-has] count(Call, code("event|ISource.RegisterEventConsumer")) <= old(count(Call, code("event|ISource.RegisterEventConsumer"))) + 1 &&
+//@             (err == nil ==> count(Call, code("event|ISource.RegisterEventConsumer")) == old(count(Call, code("event|ISource.RegisterEventConsumer"))) + 1 &&
+//@                lastval(Call, code("event|ISource.RegisterEventConsumer")) == old(wr.eventEgress))
+//@   loop 1 range eventDefinitions
+//@     invariant count(Call, code("event|ISource.RegisterEventConsumer")) == old(count(Call, code("event|ISource.RegisterEventConsumer"))) && err == nil
+//@ func newThrowEvent
+//@   prop C01 C11 C14
+//@   requires wr != nil
+//@   ensures [built-idle-with-an-empty-satisfier-and-an-inbox-of-two-slots-per-incoming-flow-plus-one] evt != nil && fresh(evt) && evt.wiring == wr && evt.element == element && throwAsBuilt(evt)
+//@   ensures [the-listener-registers-once-with-the-egress-its-wiring-has] count(Call, code("event|ISource.RegisterEventConsumer")) == old(count(Call, code("event|ISource.RegisterEventConsumer"))) + 1 &&
+//@             lastval(Call, code("event|ISource.RegisterEventConsumer")) == old(wr.eventEgress)
+//@ func newEndEvent
+//@   prop C01 C02
+//@   requires wr != nil
+//@   ensures [built-not-yet-reached-with-an-inbox-of-two-slots-per-incoming-flow-plus-one] err == nil && evt != nil && fresh(evt) && evt.wiring == wr && evt.element == element &&
+//@             !evt.activated && !evt.completed && evt.mch != nil && chancap(evt.mch) == 2*len(wr.incoming) + 1
+//@   ensures [an-end-event-listens-to-nothing] count(Call, code("event|ISource.RegisterEventConsumer")) == old(count(Call, code("event|ISource.RegisterEventConsumer")))
